@@ -62,6 +62,22 @@ fn main() {
             let sc = vharness::readers::Script::from_json(&js).expect("script");
             println!("{}", vharness::checks::c17::run_script_dyn(&variant, &sc));
         }
+        #[cfg(fast_tlsh_verif)]
+        "sched-child" => {
+            let ops: Vec<String> = args.get(2).map(|s| s.split(',').map(|x| x.to_string()).collect()).unwrap_or_default();
+            let schedule: Vec<usize> = args.get(3).map(|s| s.split(',').filter(|x| !x.is_empty()).filter_map(|x| x.parse().ok()).collect()).unwrap_or_default();
+            let trace = vharness::sched::child_main(&ops, &schedule);
+            println!("{}", trace);
+        }
+        "alloc-child" => {
+            let op = args.get(2).cloned().unwrap_or_else(|| usage());
+            println!("{}", vharness::checks::c18::alloc_child(&op));
+        }
+        "transcript-dump" => {
+            let section = args.get(2).cloned().unwrap_or_else(|| usage());
+            let block: u64 = args.get(3).and_then(|s| s.parse().ok()).unwrap_or_else(|| usage());
+            print!("{}", vharness::transcript::dump_block(&section, block));
+        }
         "replay" => {
             let id = args.get(2).cloned().unwrap_or_else(|| usage());
             let file = get("--file").unwrap_or_else(|| usage());
